@@ -596,9 +596,63 @@ pub fn long_run(sc: &VmSc, obs: &mut Obs) -> Vec<Tagged> {
     out
 }
 
+/// Evaluation must be a function of (program, inputs, limits) — not of how long it takes. One evaluation with
+/// step limit K*c is compared with K consecutive evaluations of c steps each (each continuing from the state
+/// the previous one returned): the same K*c steps, but every piece is short in real time. Needs no model.
+pub fn chunked_vs_whole(sc: &VmSc, chunk: usize, k: usize, obs: &mut Obs) -> Vec<Tagged> {
+    let mut out = Vec::new();
+    let mut whole_init = sc.init.clone();
+    whole_init.limit = chunk.saturating_mul(k);
+    let mut piece_init = sc.init.clone();
+    piece_init.limit = chunk;
+    let (Ok(whole), Ok(mut piece)) = (build_real(&whole_init), build_real(&piece_init)) else { return out };
+    let t0 = std::time::Instant::now();
+    let whole = catch(move || whole.run_to_completion());
+    let whole_ms = t0.elapsed().as_millis() as u64;
+    let mut pieces_ok = true;
+    for _ in 0..k {
+        match catch(move || piece.run_to_completion()) {
+            Ok(Ok(st)) => piece = st,
+            _ => {
+                pieces_ok = false;
+                // (a fatal error or a panic inside a piece: the ordinary long run reports those)
+                return out;
+            }
+        }
+    }
+    obs.hit("probe.whole-vs-chunked-evaluation");
+    obs.count("probe.whole-evaluation-real-milliseconds", whole_ms);
+    obs.count("steps", 2 * whole_init.limit as u64);
+    if let (Ok(Ok(w)), true) = (whole, pieces_ok) {
+        let (a, b) = (snap(&w), snap(&piece));
+        // (capacities and contents; the two states carry different step limits by construction)
+        if a != b || exec_contents(&w) != exec_contents(&piece) {
+            out.push(tag(
+                Prop::C03,
+                "at-most-limit-steps",
+                "whole-vs-chunked-evaluation".into(),
+                format!(
+                    "one evaluation with step limit {} ended in [{}], {k} consecutive evaluations of {chunk} steps ended in [{}] \
+                     (the single evaluation took {whole_ms} ms of real time)",
+                    whole_init.limit,
+                    describe_snap(&a),
+                    describe_snap(&b)
+                ),
+            ));
+        }
+    }
+    out
+}
+
 pub fn simulate(sc: &VmSc, obs: &mut Obs) -> Vec<Tagged> {
     if sc.long {
-        return long_run(sc, obs);
+        let mut out = long_run(sc, obs);
+        if let [steps] = sc.limits[..] {
+            if steps >= 1_000_000 && out.is_empty() {
+                out.extend(chunked_vs_whole(sc, steps, 6, obs));
+            }
+        }
+        return out;
     }
     let mut out = Vec::new();
     if !crate::vmgen::all_inputs_bound(sc) {
